@@ -39,19 +39,30 @@ type Case struct {
 	describe   func() any
 	run        *runner
 	Replaying  bool
+	// uniform: weighted/probabilistic choices are enumerated as plain
+	// alternatives (exhaustive driver), not by weight.
+	uniform bool
 }
 
 func (c *Case) Int(n int) int { return c.ch.Int(n) }
 func (c *Case) Bool() bool    { return c.ch.Int(2) == 1 }
 
 // Prob returns true with probability num/den (under the random driver).
-func (c *Case) Prob(num, den int) bool { return c.ch.Int(den) >= den-num }
+func (c *Case) Prob(num, den int) bool {
+	if c.uniform {
+		return c.ch.Int(2) == 1
+	}
+	return c.ch.Int(den) >= den-num
+}
 
 // Range returns a value in [lo,hi].
 func (c *Case) Range(lo, hi int) int { return lo + c.ch.Int(hi-lo+1) }
 
 // Weighted picks an index with the given relative weights.
 func (c *Case) Weighted(weights ...int) int {
+	if c.uniform {
+		return c.ch.Int(len(weights))
+	}
 	total := 0
 	for _, w := range weights {
 		total += w
@@ -130,6 +141,7 @@ type runner struct {
 	hashes   map[uint64]struct{}
 	known    map[string]bool
 	failed   bool
+	uniform  bool
 	ntSample int
 	trSample int
 }
@@ -166,7 +178,7 @@ func hashTrace(tr []int) uint64 {
 
 // execute runs prop once, converting panics to violations.
 func (r *runner) execute(ch Chooser, prop Prop, replaying bool) (c *Case, err error) {
-	c = &Case{ch: &recChooser{inner: ch}, run: r, Replaying: replaying}
+	c = &Case{ch: &recChooser{inner: ch}, run: r, Replaying: replaying, uniform: r.uniform}
 	defer func() {
 		if p := recover(); p != nil {
 			if isRapidControl(p) {
@@ -417,6 +429,7 @@ func (f chooserFunc) Int(n int) int { return f(n) }
 // stops with an inconclusive failure if more than maxCases would be needed.
 func RunExhaustive(t *testing.T, id string, maxCases int, prop Prop) {
 	r := newRunner(id, t.Name(), "exhaustive")
+	r.uniform = true
 	defer r.finish()
 	if r.replayOnly(t, prop) {
 		return
@@ -428,19 +441,50 @@ func RunExhaustive(t *testing.T, id string, maxCases int, prop Prop) {
 		return
 	}
 	e := &exhChooser{}
-	n := 0
-	for {
-		c, err := r.execute(e, prop, false)
-		if err != nil {
-			r.failed = true
-			r.stats.Violations = 1
-			p := r.writeReplay(c, err)
-			t.Fatalf("VERIF-VIOLATION property=%s replayfile=%s\n%v", id, p, err)
+	shard, shards := 0, 1
+	fmt.Sscan(os.Getenv("VERIF_SHARD"), &shard)
+	fmt.Sscan(os.Getenv("VERIF_SHARDS"), &shards)
+	if shards < 1 {
+		shards = 1
+	}
+	mine := func() bool {
+		// split the space on the first two choice positions
+		if shards == 1 || len(e.prefix) == 0 {
+			return shard == 0
 		}
-		r.account(c)
-		n++
+		idx := e.prefix[0]
+		if len(e.prefix) > 1 {
+			idx = idx*e.bounds[1] + e.prefix[1]
+		}
+		return idx%shards == shard
+	}
+	n := 0
+	first := true
+	for {
+		if first || mine() {
+			c, err := r.execute(e, prop, false)
+			if err != nil && (!first || shard == 0) {
+				r.failed = true
+				r.stats.Violations = 1
+				p := r.writeReplay(c, err)
+				t.Fatalf("VERIF-VIOLATION property=%s replayfile=%s\n%v", id, p, err)
+			}
+			if !first || shard == 0 {
+				r.account(c)
+				n++
+			}
+		} else {
+			// not ours: skip the whole subtree below the first two positions
+			if len(e.prefix) > 2 {
+				e.prefix = e.prefix[:2]
+				e.bounds = e.bounds[:2]
+			}
+			e.pos = len(e.prefix)
+		}
+		first = false
 		if !e.next() {
 			r.stats.Exhaustive = true
+			r.stats.Extra["exhaustive_shards"] = shards
 			return
 		}
 		if n >= maxCases {
